@@ -9,13 +9,45 @@ judged only when model and gcc agree (model/gcc disagreement = harness error) an
 defined.  Bits are compared exactly, NaNs as a class; long double compares its 10 value bytes.  The type of every
 expression (_Generic) and its sizeof are compared as compile-time tables.  Floating constants are compared by object
 bytes with gcc and with an exact-rational (Python fractions) round-to-nearest-even model.
+
+Dimensions added in round 3 (same grids, same model, same two-oracle rule):
+ D  translation-time evaluation.  Every binary operator (+ - * / < <= > >= == != && ||) x type pairs, unary - ! +, six
+    truth-value forms, all 63 conversions with a floating side (explicit cast and implicit conversion by initialization),
+    ?: with integer and floating conditions, and the compositions (a o1 b) o2 c, -(a o b), !(a cmp b), (T)(a o b), with
+    *constant* operands: one constant expression per operand tuple of the grid, operands spelled as hexadecimal constants
+    under unary minus / casts of integer constants, NaN as 0.0/0.0 or inf-inf, infinity as 1.0/0.0 or MAX*2, -0 as -0.0
+    or 0.0*-1.0.  Contexts: element of a static array initializer (all of the above); for 0/1-valued expressions and
+    floating->integer casts also the condition of ?: in a static initializer, the bound of a file-scope array typedef, an
+    enumerator value and a case label.  The compiled function only selects the element of the table by the operand
+    indices the driver sets, so the value observed is the one the compiler computed.  Bounds: grids small (27-28
+    floating values / <=24 integer values per operand) for two operands, full for one operand, tiny (7; thorough 14)
+    for three operands and for the non-static contexts; quick: type pairs over {int, unsigned long, float, double,
+    long double}, thorough: all 63 pairs.  Tuples with an out-of-range floating->integer conversion are not written.
+ E  operand expressions.  integer -> floating conversion (cast, initialization, usual arithmetic conversions with the
+    expression as left and as right operand of + - < <=; thorough: also argument, return, op=, > >=) of an *unstored
+    intermediate value* of each of the 9 integer types: (S)long, (S)unsigned long, (S)int, (S)double, (S)long double,
+    -x, ~x, x op y for + - * / & | ^, a call result (argument of type S and of type long), ?:, comma, the value of an
+    assignment, (S)constant and -(S)constant for the int constants -1, -7, INT_MIN; x 3 floating targets; operand grids
+    full (one operand) / small (two) with the widths 2^7..2^64 and their neighbours, other floating operand tiny.
+ L  repetition.  12 evaluations (> 8 x87 registers) of a discarded floating expression (12 forms: a+b, load, -a, (T)i,
+    call, ?:, comma, =, +=, ++ (post, pre), literal) in 11 places (for-increment alone and after a comma, for-init,
+    for/while/do condition before a comma, expression statement, (void) cast, left of comma, if condition, left of &&)
+    x 3 types followed by an observed a*b; and each of + - * / and the six comparisons evaluated 12 times in a loop.
+    The driver also compares the x87 tag word and top-of-stack before/after every case function of every layer
+    (deviation class x87-register-stack-not-restored).
+ B2 read-modify-write on other lvalue forms: ++ -- (pre, post) and + - * / = on _Atomic objects (file scope and block
+    scope; float, double, for ++/-- also _Bool; op= with the left type in {_Bool, int, unsigned long, float, double},
+    thorough every type but long double), through a pointer, on a struct member and on an array element.
+A driver that does not survive a batch (state damaged outside the guarded call) is re-run case by case in fresh processes;
+a case whose process dies alone is reported as process-damaged.
 """
-import os, re
+import os, re, itertools, json
+from concurrent.futures import ProcessPoolExecutor, as_completed
 from fractions import Fraction as Fr
 from vlib import core, twin
 
 LEVEL = "exploration"
-BUDGET = {"quick": 300, "thorough": 1500}
+BUDGET = {"quick": 900, "thorough": 3000}
 
 TYPES = ["_Bool", "char", "short", "int", "long", "unsigned char", "unsigned short", "unsigned int", "unsigned long",
          "float", "double", "long double"]
@@ -31,12 +63,16 @@ CMP = [("<", "O_LT"), ("<=", "O_LE"), (">", "O_GT"), (">=", "O_GE"), ("==", "O_E
 LOGIC = [("&&", "O_LAND"), ("||", "O_LOR")]
 BINOPS = ARITH + CMP + LOGIC
 UNOPS = [("-", "O_NEG"), ("!", "O_LNOT"), ("+", "O_POS")]
+# integer-only operators: used only to build integer operand *expressions* (layer E), never judged on their own
+BITOPS = [("&", "O_BAND"), ("|", "O_BOR"), ("^", "O_BXOR")]
+BNOT = ("~", "O_BNOT")
 GENERIC = ("_Bool:0, char:1, short:2, int:3, long:4, unsigned char:5, unsigned short:6, unsigned int:7, unsigned long:8, "
            "float:9, double:10, long double:11, default:99")
 
 
 OPN = {"O_ADD": "add", "O_SUB": "sub", "O_MUL": "mul", "O_DIV": "div", "O_LT": "lt", "O_LE": "le", "O_GT": "gt", "O_GE": "ge", "O_EQ": "eq", "O_NE": "ne",
-       "O_LAND": "and-and", "O_LOR": "or-or", "O_NEG": "neg", "O_LNOT": "not", "O_POS": "pos"}
+       "O_LAND": "and-and", "O_LOR": "or-or", "O_NEG": "neg", "O_LNOT": "not", "O_POS": "pos",
+       "O_BNOT": "bitnot", "O_BAND": "bitand", "O_BOR": "bitor", "O_BXOR": "bitxor"}
 def opn(op): return OPN[op[1]]       # operator names in case ids: no '/', '|', '*' (ids are split on '/', signatures on '|', matched with fnmatch)
 def is_fp(t): return t >= 9
 def promote(t): return t if is_fp(t) else (INT if SIZE[t] < 4 else t)
@@ -186,9 +222,11 @@ def slot(i, t): return ("slot", i, t)
 def ptype(n):
     k = n[0]
     if k == "slot": return n[2]
-    if k == "bin": return common(ptype(n[2]), ptype(n[3])) if n[1] in ARITH else INT
+    if k == "bin": return common(ptype(n[2]), ptype(n[3])) if n[1] in ARITH or n[1] in BITOPS else INT
     if k == "un": return INT if n[1][0] == "!" else promote(ptype(n[2]))
-    if k in ("cast", "ctx"): return n[1]
+    if k in ("cast", "ctx", "call"): return n[1]
+    if k == "assign": return ptype(n[1])
+    if k == "ilit": return INT
     if k == "cond": return common(ptype(n[2]), ptype(n[3]))
     if k == "comma": return ptype(n[2])
     if k == "assignop": return ptype(n[2])
@@ -197,9 +235,15 @@ def ptype(n):
     if k == "raw": return n[2]
     raise ValueError(k)
 
-def text(n):
+def text(n, env=None):
+    """C text of a tree; env (folded cases) maps slot numbers to the spelling of the operand."""
     k = n[0]
-    if k == "slot": return "FN(S%d_%s)" % (n[1], TN[n[2]])
+    if k == "slot": return env[n[1]] if env else "FN(S%d_%s)" % (n[1], TN[n[2]])
+    if env: return _text_env(n, env)
+    if k == "ctx": return text(n[2])                       # conversion done by the context, nothing to write
+    if k == "call": return "FN(arg_%s)(%s)" % (TN[n[1]], text(n[2]))
+    if k == "assign": return "(%s = %s)" % (text(n[1]), text(n[2]))
+    if k == "ilit": return "(-2147483647-1)" if n[1] == -(1 << 31) else "(%d)" % n[1]
     if k == "bin": return "(%s %s %s)" % (text(n[2]), n[1][0], text(n[3]))
     if k == "un": return "(%s %s)" % (n[1][0], text(n[2]))
     if k == "cast": return "((%s)%s)" % (TYPES[n[1]], text(n[2]))
@@ -209,6 +253,17 @@ def text(n):
     if k == "incdec":
         return {"O_PREINC": "(++%s)", "O_PREDEC": "(--%s)", "O_POSTINC": "(%s++)", "O_POSTDEC": "(%s--)"}[n[1]] % text(n[2])
     if k == "raw": return n[1]
+    raise ValueError(k)
+
+def _text_env(n, env):
+    k = n[0]
+    T = lambda x: text(x, env)
+    if k == "ctx": return T(n[2])
+    if k == "bin": return "(%s %s %s)" % (T(n[2]), n[1][0], T(n[3]))
+    if k == "un": return "(%s %s)" % (n[1][0], T(n[2]))
+    if k == "cast": return "((%s)%s)" % (TYPES[n[1]], T(n[2]))
+    if k == "cond": return "(%s ? %s : %s)" % (T(n[1]), T(n[2]), T(n[3]))
+    if k == "comma": return "(%s , %s)" % (T(n[1]), T(n[2]))
     raise ValueError(k)
 
 def emit_model(n, out):
@@ -221,8 +276,11 @@ def emit_model(n, out):
         l = emit_model(n[2], out); r = emit_model(n[3], out); return node("K_BIN", n[1][1], 0, l, r)
     if k == "un":
         l = emit_model(n[2], out); return node("K_UN", n[1][1], 0, l)
-    if k in ("cast", "ctx"):
+    if k in ("cast", "ctx", "call"):
         l = emit_model(n[2], out); return node("K_CAST", n[1], 0, l)
+    if k == "assign":                                         # value of an assignment expression: the right side converted to the type of the left
+        l = emit_model(n[2], out); return node("K_CAST", ptype(n[1]), 0, l)
+    if k == "ilit": return node("K_ILIT", n[1])
     if k == "truth":
         l = emit_model(n[1], out); return node("K_TRUTH", 0, 0, l)
     if k == "cond":
@@ -236,12 +294,15 @@ def emit_model(n, out):
     raise ValueError(k)
 
 
-def model_ok(n):
-    """The model covers an operator node only if it involves a floating operand (integer-only operators are C01's)."""
+def model_ok(n, intops=False):
+    """Layers A-C: an operator node is kept only if it involves a floating operand (integer-only operators are C01's).
+    Layers E, I (intops): integer-only + - * / & | ^ and unary - ~ are modelled too, as producers of operand expressions."""
     k = n[0]
-    if k in ("slot", "raw"): return True
-    kids = [x for x in n[1:] if isinstance(x, tuple) and x and x[0] in ("slot", "bin", "un", "cast", "ctx", "cond", "comma", "assignop", "incdec", "truth", "raw")]
-    if not all(model_ok(x) for x in kids): return False
+    if k in ("slot", "raw", "ilit"): return True
+    kids = [x for x in n[1:] if isinstance(x, tuple) and x and x[0] in ("slot", "bin", "un", "cast", "ctx", "cond", "comma", "assignop", "incdec", "truth", "raw",
+                                                                        "call", "assign", "ilit")]
+    if not all(model_ok(x, intops) for x in kids): return False
+    if intops: return True
     if k == "bin" and n[1] not in LOGIC: return is_fp(ptype(n[2])) or is_fp(ptype(n[3]))
     if k == "un" and n[1][0] != "!": return is_fp(ptype(n[2]))
     if k == "assignop": return is_fp(ptype(n[2])) or is_fp(ptype(n[3]))
@@ -250,12 +311,32 @@ def model_ok(n):
 
 
 class Case:
-    __slots__ = ("cid", "tree", "body", "slots", "typed", "final", "helpers", "grid", "rt", "conv")
-    def __init__(self, cid, tree, slots, body=None, typed=True, final=-1, helpers="", grid="full", conv=None):
+    __slots__ = ("cid", "tree", "body", "slots", "typed", "final", "helpers", "grid", "rt", "conv", "intops", "fold", "fexpr", "variant")
+    def __init__(self, cid, tree, slots, body=None, typed=True, final=-1, helpers="", grid="full", conv=None, intops=False,
+                 fold=None, fexpr=None, variant=0):
         self.cid, self.tree, self.slots, self.body, self.typed, self.final, self.helpers, self.grid = \
             cid, tree, slots, body, typed, final, helpers, grid
         self.rt = ptype(tree)
         self.conv = conv          # (src, dst) when the case exercises exactly that conversion on slot 0 (coverage assertion)
+        self.intops = intops      # the tree contains integer-only operators (layer E operand expressions)
+        # layer D (translation-time evaluation): fold = context in which the compiler itself must evaluate the expression
+        # ("static", "bound", "enum", "case", "condinit"); fexpr = expression with {0} {1} {2} for the operand spellings;
+        # variant selects the spelling of NaN and infinity operands
+        self.fold, self.fexpr, self.variant = fold, fexpr, variant
+        if fold and fexpr is None:
+            self.fexpr = text(tree, ["{0}", "{1}", "{2}"])
+
+    def grids(self):
+        """grid kind of every slot (grid is one kind for all slots, or a list)."""
+        if isinstance(self.grid, str):
+            return ["small" if self.grid == "cond" else self.grid] * len(self.slots)
+        return list(self.grid)
+
+    def ntuples(self):
+        n = 1
+        for t, g in zip(self.slots, self.grids()):
+            n *= len(grid_values(t, g))
+        return n
 
 
 def W(t):
@@ -376,7 +457,296 @@ def gen_cases(tier):
             if o in ARITH:
                 for d in (T if tier == "thorough" else RT):
                     cases.append(Case("C/cast/%s/%s/%s,%s" % (TN[d], opn(o), TN[a], TN[b]), ("cast", d, inner), [a, b], grid="small"))
-    return [c for c in cases if model_ok(c.tree)]
+    gen_lvalue_forms(cases, tier)
+    gen_operand_exprs(cases, tier)
+    gen_loops(cases, tier)
+    gen_folded(cases, tier)
+    return [c for c in cases if model_ok(c.tree, c.intops)]
+
+
+# ---- Layer B2: read-modify-write operators on other lvalue forms (atomic objects, through a pointer, member, element) ----
+LV_FORMS = (
+    # name, declaration+setup with {T} type {X} operand-0 text, lvalue text, store-back of the final object value into slot 0
+    ("atomic-global", "FN(A_{N}) = {X};", "FN(A_{N})", "{X} = FN(A_{N});"),
+    ("atomic-local", "_Atomic {T} d = {X};", "d", "{X} = d;"),
+    ("pointer", "{T} *p = &{X};", "(*p)", ""),
+    ("member", "struct {{ char c; {T} m; }} s; s.m = {X};", "s.m", "{X} = s.m;"),
+    ("element", "{T} a[3]; int i = 1; a[i] = {X};", "a[i]", "{X} = a[1];"),
+)
+
+def gen_lvalue_forms(cases, tier):
+    """++ -- (pre and post) and the four op= on objects that are not plain variables.  _Atomic objects: float, double (and _Bool
+    for ++/--); chibicc and libatomic-less gcc do not support a 16-byte atomic read-modify-write, so no _Atomic long double."""
+    R = "FN(R_%s)"
+    for fname, setup, lv, back in LV_FORMS:
+        atomic = fname.startswith("atomic")
+        for d in ((0, FLOAT, DOUBLE) if atomic else FP):
+            x = slot(0, d); X = text(x)
+            f = lambda t: t.format(T=TYPES[d], N=TN[d], X=X)
+            for op in ("O_PREINC", "O_PREDEC", "O_POSTINC", "O_POSTDEC"):
+                e = {"O_PREINC": "++%s", "O_PREDEC": "--%s", "O_POSTINC": "%s++", "O_POSTDEC": "%s--"}[op] % f(lv)
+                cases.append(Case("B/incdec-%s/%s/%s" % (fname, op[2:].lower(), TN[d]), ("incdec", op, x), [d], final=0, typed=False, intops=not is_fp(d),
+                                  body="%s %s = %s; %s" % (f(setup), R % TN[d], e, f(back))))
+        for d, s in fp_pairs():
+            if atomic and (d == LDOUBLE or (tier == "quick" and d not in (0, INT, ULONG, FLOAT, DOUBLE))): continue
+            if not atomic and not is_fp(d): continue
+            if tier == "quick" and s not in (INT, ULONG, FLOAT, DOUBLE, LDOUBLE): continue
+            x = slot(0, d); X = text(x)
+            f = lambda t: t.format(T=TYPES[d], N=TN[d], X=X)
+            for op in ARITH:
+                cases.append(Case("B/assignop-%s/%s/%s,%s" % (fname, opn(op), TN[d], TN[s]), ("assignop", op, x, slot(1, s)), [d, s], final=0, typed=False,
+                                  grid="small" if not atomic else "full",
+                                  body="%s %s = (%s %s= %s); %s" % (f(setup), R % TN[d], f(lv), op[0], text(slot(1, s)), f(back))))
+
+
+# ---- Layer E: the operand of a conversion is the value of an expression, not a loaded object ----------------------------
+def int_operand_forms(S):
+    """(name, tree, slot types, grid): expressions of integer type S (or of its promoted type) over slots 0 (and 1)."""
+    x = slot(0, S)
+    out = []
+    for w, wn in ((LONG, "long"), (ULONG, "ulong"), (INT, "int"), (DOUBLE, "double"), (LDOUBLE, "ldouble")):
+        if w != S:
+            out.append(("cast-" + wn, ("cast", S, slot(0, w)), [w], "full"))       # (S)wider / (S)negative / (S)floating
+    out.append(("neg", ("un", UNOPS[0], x), [S], "full"))
+    out.append(("bitnot", ("un", BNOT, x), [S], "full"))
+    for op in ARITH + BITOPS:
+        out.append((opn(op), ("bin", op, x, slot(1, S)), [S, S], "small"))
+    out.append(("call", ("call", S, x), [S], "full"))
+    out.append(("call-wide", ("call", S, slot(0, LONG)), [LONG], "full"))         # argument converted by the prototype
+    out.append(("cond", ("cond", slot(1, INT), x, x), [S, INT], "cond"))
+    out.append(("comma", ("comma", slot(1, INT), x), [S, INT], "cond"))
+    out.append(("assign-value", ("assign", slot(1, S), slot(0, LONG)), [LONG, S], "cond"))
+    for v in (-1, -7, -(1 << 31)):
+        out.append(("cast-const%d" % v, ("cast", S, ("ilit", v)), [INT], "tiny"))   # slot 0 is not used
+        out.append(("neg-cast-const%d" % v, ("un", UNOPS[0], ("cast", S, ("ilit", v))), [INT], "tiny"))
+    return out
+
+def gen_operand_exprs(cases, tier):
+    """integer -> floating conversions whose operand is an unstored intermediate value (upper register bits are whatever the
+    producer left there): 9 integer source types x operand forms x 3 floating targets x consumers."""
+    R = "FN(R_%s)"
+    for S in range(9):
+        for fname, tree, slots, grid in int_operand_forms(S):
+            ns = len(slots)
+            g1 = [("small" if grid == "cond" else grid)] * ns
+            g2 = g1 + ["tiny"]                      # the other operand of a binary operator: a floating object, tiny grid
+            for F in FP:
+                y = slot(ns, F)
+                cid = "%s/%s<-%s" % (fname, TN[F], TN[S])
+                cases.append(Case("E/cast/" + cid, ("cast", F, tree), slots, grid=g1, intops=True))
+                cases.append(Case("E/init/" + cid, ("ctx", F, tree), slots, grid=g1, intops=True, typed=False,
+                                  body="%s d = %s; %s = d;" % (TYPES[F], text(tree), R % TN[F])))
+                # usual arithmetic conversions, the expression on either side (the other operand is then pending in a register
+                # while the expression is evaluated; chibicc turns a > b into b < a, so both spellings are needed)
+                cases.append(Case("E/add/" + cid, ("bin", ARITH[0], tree, y), slots + [F], grid=g2, intops=True))
+                cases.append(Case("E/sub-rhs/" + cid, ("bin", ARITH[1], y, tree), slots + [F], grid=g2, intops=True))
+                cases.append(Case("E/lt/" + cid, ("bin", CMP[0], tree, y), slots + [F], grid=g2, intops=True))
+                cases.append(Case("E/le-rhs/" + cid, ("bin", CMP[1], y, tree), slots + [F], grid=g2, intops=True))
+                if tier == "thorough":
+                    cases.append(Case("E/gt/" + cid, ("bin", CMP[2], tree, y), slots + [F], grid=g2, intops=True))
+                    cases.append(Case("E/ge-rhs/" + cid, ("bin", CMP[3], y, tree), slots + [F], grid=g2, intops=True))
+                if tier == "thorough":
+                    cases.append(Case("E/arg/" + cid, ("ctx", F, tree), slots, grid=g1, intops=True, typed=False,
+                                      body="%s = FN(arg_%s)(%s);" % (R % TN[F], TN[F], text(tree))))
+                    cases.append(Case("E/ret/" + cid, ("ctx", F, tree), slots, grid=g1, intops=True, typed=False, body="%s = FN(r_@)();" % (R % TN[F]),
+                                      helpers="static %s FN(r_@)(void) { return %s; }\n" % (TYPES[F], text(tree))))
+                    cases.append(Case("E/assignop/" + cid, ("assignop", ARITH[0], y, tree), slots + [F], grid=g2, intops=True, final=ns))
+
+
+# ---- Layer L: repetition - discarded floating values in a loop must not disturb later arithmetic ---------------------------
+def gen_loops(cases, tier):
+    """12 evaluations (more than the 8 x87 registers) of an expression of floating type whose value is discarded, in every
+    position where a value can be dropped, followed by (or interleaved with) an observed operation."""
+    R = "FN(R_%s)"
+    for T in FP:
+        x, y = slot(0, T), slot(1, T)
+        X, Y = text(x), text(y)
+        exprs = (("add", "%s + %s" % (X, Y)), ("load", X), ("neg", "-%s" % X), ("from-int", "(%s)i" % TYPES[T]), ("call", "FN(arg_%s)(%s)" % (TN[T], X)),
+                 ("cond", "i ? %s : %s" % (X, Y)), ("comma", "(i, %s)" % Y), ("assign", "d = %s" % X), ("add-assign", "d += %s" % Y),
+                 ("postinc", "d++"), ("preinc", "++d"), ("literal", "1.5" + {FLOAT: "f", DOUBLE: "", LDOUBLE: "L"}[T]))
+        places = (("for-inc", "for (i = 0; i < 12; %s) i++;"), ("for-inc-comma", "for (i = 0; i < 12; i++, %s) ;"), ("for-init", "for (k = 0; k < 12; k++) for (%s; i < 1;) break;"),
+                  ("for-cond-comma", "for (i = 0; (%s, i < 12); i++) ;"), ("statement", "for (i = 0; i < 12; i++) { %s; }"), ("void-cast", "for (i = 0; i < 12; i++) (void)(%s);"),
+                  ("comma-lhs", "for (i = 0; i < 12; i++) k = ((%s), i);"), ("if-cond", "for (i = 0; i < 12; i++) if (%s) k++;"), ("logand-lhs", "for (i = 0; i < 12; i++) (%s) && k++;"),
+                  ("while-cond-comma", "i = 0; while ((%s), i < 12) i++;"), ("do-cond-comma", "i = 0; do i++; while ((%s), i < 12);"))
+        obs = ("bin", ARITH[2], x, y)
+        for en, e in exprs:
+            for pn, p in places:
+                if en in ("cond", "comma") and pn in ("if-cond", "logand-lhs"):
+                    e2 = "(%s)" % e
+                else:
+                    e2 = e
+                cases.append(Case("L/%s/%s/%s" % (pn, en, TN[T]), obs, [T, T], grid="small", typed=False,
+                                  body="int i = 0, k = 0; %s d = 0; %s %s = %s;" % (TYPES[T], p % e2, R % TN[T], text(obs))))
+        # the observed operation itself is repeated: every evaluation must give the same bits
+        for op in ARITH + CMP:
+            tr = ("bin", op, x, y)
+            cases.append(Case("L/repeat/%s/%s" % (opn(op), TN[T]), tr, [T, T], grid="small", typed=False,
+                              body="int i; for (i = 0; i < 12; i++) %s = %s;" % (R % TN[ptype(tr)], text(tr))))
+            cases.append(Case("L/accumulate/%s/%s" % (opn(op), TN[T]), ("cast", LONG if op in CMP else T, tr), [T, T], grid="small", typed=False,
+                              body=("int i; long n = 0; for (i = 0; i < 12; i++) n += %s; FN(R_long) = n / 12;" % text(tr)) if op in CMP else
+                                   ("int i; %s r; for (i = 0; i < 12; i++) r = %s; %s = r;" % (TYPES[T], text(tr), R % TN[T]))))
+
+
+# ---- Layer D: translation-time evaluation -------------------------------------------------------------------------------------
+FSUF = {FLOAT: "f", DOUBLE: "", LDOUBLE: "L"}
+
+def hex_plain(x):
+    n, d = x.numerator, x.denominator
+    k = d.bit_length() - 1
+    assert n >= 0 and d == 1 << k
+    return "0x%xp%d" % (n, -k)
+
+def fold_lit(v, t, variant=0):
+    """Spelling of the grid value v of type t as a constant expression that has exactly this type and value.  Finite values:
+    a hexadecimal constant (exact) under unary minus; integers: a cast of a long/unsigned long constant.  NaN, infinity
+    and -0 have no literal: variant 0 spells them 0.0/0.0, 1.0/0.0, -0.0; variant 1 inf-inf, MAX*2, 0.0*-1.0."""
+    if not is_fp(t):
+        if v == -(1 << 63): lit = "(-9223372036854775807L-1)"
+        elif v < 0: lit = "(-%dL)" % -v
+        elif v >= 1 << 63: lit = "%dUL" % v
+        else: lit = "%dL" % v
+        return "((%s)%s)" % (TYPES[t], lit)
+    sf = FSUF[t]
+    if isinstance(v, str):
+        inf = ("(1.0{0}/0.0{0})".format(sf), "(%s%s*2.0%s)" % (hex_plain(fmax(t)), sf, sf))[variant]
+        nan = ("(0.0{0}/0.0{0})".format(sf), "(%s-%s)" % (inf, inf))[variant]
+        nz = ("(-0.0%s)" % sf, "(0.0{0}*-1.0{0})".format(sf))[variant]
+        return {"nan": nan, "-nan": "(-%s)" % nan, "inf": inf, "-inf": "(-%s)" % inf, "-0": nz}[v]
+    h = hex_plain(abs(v)) + sf
+    return "(-%s)" % h if v < 0 else h
+
+def int_range(t):
+    if t == 0: return 0, 1
+    b = SIZE[t] * 8
+    return (0, (1 << b) - 1) if UNS[t] else (-(1 << (b - 1)), (1 << (b - 1)) - 1)
+
+def fold_value(n, vals):
+    """Python-side look at one operand tuple of a folded case.  Returns (defined, value): defined is False when a
+    floating -> integer conversion in the tree is out of range (6.3.1.4: undefined; gcc may refuse to fold it, so such a
+    tuple is not written at all); value is the integer value when the whole tree is one such conversion, else None.
+    The generator applies floating -> integer conversions only directly to operands, so no arithmetic is needed here."""
+    k = n[0]
+    if k in ("slot", "ilit"): return True, None
+    if k in ("cast", "ctx") and not is_fp(n[1]) and is_fp(ptype(n[2])):
+        if n[2][0] != "slot": raise core.HarnessError("layer D: floating->integer conversion of a non-operand")
+        if n[1] == 0: return True, None                  # -> _Bool: defined for every value, NaN included
+        v = vals[n[2][1]]
+        if v == "-0": return True, 0
+        if isinstance(v, str): return False, None
+        iv = int(v)                                       # truncation toward zero
+        lo, hi = int_range(n[1])
+        return (True, iv) if lo <= iv <= hi else (False, None)
+    ok = True
+    for x in n[1:]:
+        if isinstance(x, tuple) and x and isinstance(x[0], str) and x[0] in ("slot", "bin", "un", "cast", "ctx", "cond", "comma", "truth", "ilit"):
+            ok = fold_value(x, vals)[0] and ok
+    return ok, None
+
+def is_boolish(n):
+    return n[0] == "truth" or (n[0] == "bin" and n[1] not in ARITH and n[1] not in BITOPS) or (n[0] == "un" and n[1][0] == "!")
+
+FOLD_CONTEXTS = ("static", "condinit", "bound", "enum", "case")
+
+def fold_unit(c, i):
+    """(helper declarations, function body, number of expressions written in the context) of the folded case c, number i in
+    its unit.  The function only selects the element FN(IX) (operand indices, set by the driver) of a table of constants
+    that the compiler under test had to evaluate; the context decides where the constant expression stands:
+      static    element of a static array initializer (element type = type of the expression, or the target of the conversion)
+      condinit  first operand of ?: in a static initializer
+      bound     array bound of a file-scope typedef (observed with sizeof)     enum   value of an enumerator     case   case label"""
+    grids = [grid_values(t, g) for t, g in zip(c.slots, c.grids())]
+    lits = [[fold_lit(v, t, c.variant) for v in gv] for t, gv in zip(c.slots, grids)]
+    dims = [len(g) for g in grids]
+    idx = "FN(IX)[0]"
+    for s in range(1, len(dims)):
+        idx = "(%s * %d + FN(IX)[%d])" % (idx, dims[s], s)
+    boolish = is_boolish(c.tree) or (c.tree[0] == "cast" and c.tree[1] == 0)
+    pre, elems, n_ctx = [], [], 0
+    for k, tup in enumerate(itertools.product(*[range(n) for n in dims])):
+        ok, iv = fold_value(c.tree, [grids[s][j] for s, j in enumerate(tup)])
+        if not ok:                                            # the model calls this tuple undefined; never compared
+            if c.fold != "case": elems.append("0")
+            continue
+        e = c.fexpr.format(*([lits[s][j] for s, j in enumerate(tup)] + ["", ""]))
+        if c.fold == "static":
+            elems.append(e); n_ctx += 1
+        elif c.fold == "condinit":
+            elems.append("(%s ? 1 : 0)" % e); n_ctx += 1
+        elif c.fold == "bound" and (boolish or (iv is not None and 0 <= iv <= 4095)):
+            # a file-scope typedef: there gcc folds a bound that is not a strict integer constant expression (in a type
+            # name inside an expression it would make a variable length array of it)
+            pre.append("typedef char FN(b%d_%d)[%s + 1];" % (i, k, e)); elems.append("(sizeof(FN(b%d_%d)) - 1)" % (i, k)); n_ctx += 1
+        elif c.fold == "enum" and (boolish or (iv is not None and -(1 << 31) <= iv < (1 << 31))):    # 6.7.2.2p2: representable as an int
+            pre.append("enum { FN(e%d_%d) = %s };" % (i, k, e)); elems.append("FN(e%d_%d)" % (i, k)); n_ctx += 1
+        elif c.fold == "case":
+            elems.append("case %d: switch (1) { case %s: r = 1; break; default: r = 0; } break;" % (k, e)); n_ctx += 1
+        else:
+            elems.append(e)                                   # value out of reach of this context: plain static element
+    if c.fold == "case":
+        if not boolish: raise core.HarnessError("layer D: case-label context needs a 0/1 valued expression")
+        return "", "int r = -1; switch (%s) {\n%s\n} FN(R_int) = r;" % (idx, "\n".join(elems)), n_ctx
+    pre.append("static %s FN(T%d)[] = {\n%s\n};" % (TYPES[c.rt], i, ",\n".join(elems)))
+    return "\n".join(pre) + "\n", "FN(R_%s) = FN(T%d)[%s];" % (TN[c.rt], i, idx), n_ctx
+
+
+def gen_folded(cases, tier):
+    """Every operator and conversion of layers A-C once more with *constant* operands, spelled so that the compiler has to
+    evaluate the expression itself, judged by the same model on the same value grids."""
+    quick = tier == "quick"
+    RT = [INT, ULONG, FLOAT, DOUBLE, LDOUBLE]
+    pairs = [(a, b) for a, b in fp_pairs() if not quick or (a in RT and b in RT)]
+    tiny = "tiny" if quick else "tiny2"
+    V2 = (0, 1)
+    def add(cid, tree, slots, grid, ctx="static", fexpr=None, variants=(0,)):
+        for v in variants:
+            cases.append(Case("D/%s/%s%s" % (ctx, cid, "/alt-spelling" if v else ""), tree, slots, grid=grid, typed=False, fold=ctx, fexpr=fexpr, variant=v))
+    TRUTH = (("cond", "({0} ? 1 : 0)"), ("not-cond", "(!{0} ? 0 : 1)"), ("land", "({0} && 1)"), ("land-rhs", "(1 && {0})"), ("lor", "(0 || {0})"), ("lor-lhs", "({0} || 0)"))
+    # operators
+    for op in BINOPS:
+        for a, b in pairs:
+            add("bin/%s/%s,%s" % (opn(op), TN[a], TN[b]), ("bin", op, slot(0, a), slot(1, b)), [a, b], "small", variants=V2 if a == b else (0,))
+    for a in FP:
+        for op in UNOPS:
+            add("un/%s/%s" % (opn(op), TN[a]), ("un", op, slot(0, a)), [a], "full", variants=V2)
+        for kind, fx in TRUTH:
+            add("truth/%s/%s" % (kind, TN[a]), ("truth", slot(0, a)), [a], "full", fexpr=fx, variants=V2)
+    # conversions: explicit cast, and implicit conversion to the type of the initialized object
+    for d in range(NT):
+        for s in range(NT):
+            if not (is_fp(d) or is_fp(s)): continue
+            add("cast/%s<-%s" % (TN[d], TN[s]), ("cast", d, slot(0, s)), [s], "full")
+            add("init/%s<-%s" % (TN[d], TN[s]), ("ctx", d, slot(0, s)), [s], "full")
+    # ?: with integer and floating conditions (second and third operand converted to the common type)
+    for a, b in pairs:
+        for ct in (INT, FLOAT, DOUBLE, LDOUBLE):
+            add("cond/%s/%s,%s" % (TN[ct], TN[a], TN[b]), ("cond", slot(2, ct), slot(0, a), slot(1, b)), [a, b, ct], tiny)
+    # compositions: every node is rounded to its own type
+    for T in FP:
+        x, y, z = slot(0, T), slot(1, T), slot(2, T)
+        for o1 in ARITH:
+            for o2 in ARITH + CMP:
+                add("l/%s/%s/%s" % (opn(o1), opn(o2), TN[T]), ("bin", o2, ("bin", o1, x, y), z), [T, T, T], tiny)
+                if not quick and o2 in ARITH:
+                    add("r/%s/%s/%s" % (opn(o1), opn(o2), TN[T]), ("bin", o1, x, ("bin", o2, y, z)), [T, T, T], tiny)
+            add("u/neg/%s/%s" % (opn(o1), TN[T]), ("un", UNOPS[0], ("bin", o1, x, y)), [T, T], "small")
+            for d in FP:
+                if d != T:
+                    add("cast/%s/%s/%s" % (TN[d], opn(o1), TN[T]), ("cast", d, ("bin", o1, x, y)), [T, T], "small")
+        for o in CMP:
+            add("u/not/%s/%s" % (opn(o), TN[T]), ("un", UNOPS[1], ("bin", o, x, y)), [T, T], "small")
+    # the other places where a constant expression is required or evaluated: 0/1 valued expressions and floating -> integer
+    for ctx in FOLD_CONTEXTS[1:]:
+        for op in CMP + LOGIC:
+            for a, b in pairs:
+                add("bin/%s/%s,%s" % (opn(op), TN[a], TN[b]), ("bin", op, slot(0, a), slot(1, b)), [a, b], tiny, ctx=ctx, variants=V2 if a == b else (0,))
+        for a in FP:
+            add("un/not/%s" % TN[a], ("un", UNOPS[1], slot(0, a)), [a], "small", ctx=ctx, variants=V2)
+            for kind, fx in TRUTH[:3]:
+                add("truth/%s/%s" % (kind, TN[a]), ("truth", slot(0, a)), [a], "small", ctx=ctx, fexpr=fx, variants=V2)
+        if ctx in ("bound", "enum"):
+            for s in FP:
+                for d in range(9):
+                    add("cast/%s<-%s" % (TN[d], TN[s]), ("cast", d, slot(0, s)), [s], "full", ctx=ctx)
 
 
 # ---- floating constants ----------------------------------------------------------------------------------------------
@@ -505,18 +875,27 @@ static int fp_dirty(void) {
   __asm__ volatile("fnstcw %0" : "=m"(cw)); __asm__ volatile("stmxcsr %0" : "=m"(mx));
   return (cw & 0x0f3f) != 0x033f || (mx & 0xffc0) != 0x1f80;
 }
+// x87 register stack after a call of a function that returns nothing: every register must be empty again (psABI 3.2.3) and
+// the top-of-stack pointer back where it was (it is 0 after fninit; pops from an empty stack displace it)
+static int x87_unbalanced(void) {
+  struct { unsigned short cw, r0, sw, r1, tag, r2; unsigned rest[4]; } env;
+  __asm__ volatile("fnstenv %0" : "=m"(env));
+  return env.tag != 0xffff || ((env.sw >> 11) & 7) != 0;
+}
 // Calls f with a pristine x87/SSE control state and empty x87 stack (so that a leak or a control word left modified by
-// one case cannot contaminate the next), returns 0, or the signal number, or -1 if the control state was left modified.
+// one case cannot contaminate the next), returns 0, or the signal number, or -1 if the control state was left modified,
+// or -2 if the x87 register stack was not left as it was found.
 static NOINL int call_clean(void (*f)(void), int guarded) {
-  int sg, dirty;
+  int sg, dirty, unbal;
   fp_reset();
   if (guarded) {
     if ((sg = sigsetjmp(cc_trap, 1)) == 0) { in_cc = 1; f(); in_cc = 0; }
     else { in_cc = 0; fp_reset(); return sg; }
   } else f();
   dirty = fp_dirty();
+  unbal = x87_unbalanced();
   fp_reset();
-  return dirty ? -1 : 0;
+  return dirty ? -1 : unbal ? -2 : 0;
 }
 typedef struct { char key[80]; long count; char ex[360]; } Cls;
 static Cls cls[16]; static int ncls;
@@ -526,11 +905,12 @@ static void record(const char *key, const char *ex) {
   snprintf(cls[ncls].key, sizeof cls[ncls].key, "%s", key); cls[ncls].count = 1; snprintf(cls[ncls].ex, sizeof cls[ncls].ex, "%s", ex); ncls++;
 }
 static void hexbytes(char *o, const unsigned char *b, int n) { for (int i = n - 1; i >= 0; i--) o += sprintf(o, "%02x", b[i]); }
-int main(void) {
+int main(int argc, char **argv) {
   signal(SIGFPE, on_sig); signal(SIGSEGV, on_sig); signal(SIGILL, on_sig); signal(SIGBUS, on_sig);
   long evals = 0, skipped = 0, odis = 0, j2 = 0, j1 = 0;
-  int ncases = NROWS;
-  for (int i = 0; i < ncases; i++) {
+  // "drv <row>": only that case, in a process of its own (used when the whole batch does not run to its end)
+  int first = argc > 1 ? atoi(argv[1]) : 0, ncases = argc > 1 ? first + 1 : NROWS;
+  for (int i = first; i < ncases; i++) {
     const Row *r = &rows[i];
     ncls = 0;
     if (r->typed) {
@@ -546,7 +926,7 @@ int main(void) {
       for (int s = 0; s < r->ns; s++) {
         const Grid *g = &grids[r->g[s]];
         if (IS_FP(r->st[s])) v[s].f = g->fv[ix[s]]; else v[s].i = g->iv[ix[s]];
-        m_slot[s] = v[s]; set_slot(s, r->st[s], &v[s]);
+        m_slot[s] = v[s]; set_slot(s, r->st[s], &v[s]); cc_IX[s] = ref_IX[s] = ix[s];
         ov[s] = get_slot(0, s, r->st[s]);
       }
       MFlags fl = {0, 0}; m_final_set = 0;
@@ -578,7 +958,8 @@ int main(void) {
       if (st > 0) { snprintf(devb, sizeof devb, "got=signal%d", st); dev = devb; }
       else if (!mv_same(cv, rv)) dev = dev_class(rv, cv);
       else if (r->final >= 0 && !mv_same(cfin, rfin)) { snprintf(devb, sizeof devb, "object:%s", dev_class(rfin, cfin)); dev = devb; }
-      else if (st < 0) dev = "fp-control-state-not-restored";
+      else if (st == -1) dev = "fp-control-state-not-restored";
+      else if (st == -2) dev = "x87-register-stack-not-restored";
       if (!dev) continue;
       const char *on = class_name(oc);
       if (r->ns > 1) {
@@ -597,7 +978,7 @@ int main(void) {
   }
   // floating constants: object bytes of a static object and of a value materialised at run time
   long kj = 0;
-  for (int i = 0; i < NKROWS; i++) {
+  for (int i = 0; i < (argc > 1 ? 0 : NKROWS); i++) {
     const KRow *k = &krows[i];
     int n = k->t == T_LDOUBLE ? 10 : ty_size[k->t];
     unsigned char rb[2][16], cb[2][16]; char h1[40], h2[40];
@@ -642,11 +1023,21 @@ def build_batch(cases, consts=()):
     u.append("double FN(va_double)(int n, ...) { va_list ap; va_start(ap, n); double d = va_arg(ap, double); va_end(ap); return d; }")
     u.append("long double FN(va_ldouble)(int n, ...) { va_list ap; va_start(ap, n); long double d = va_arg(ap, long double); va_end(ap); return d; }")
     u.append("double drv_va_double(int n, ...); long double drv_va_ldouble(int n, ...);")
+    u.append("int FN(IX)[3];")                               # indices of the current operands in their grids (layer D)
+    for t in range(NT):
+        if t != LDOUBLE:
+            u.append("_Atomic %s FN(A_%s);" % (TYPES[t], TN[t]))
     tys, szs = [], []
+    nfold = {}
     for i, c in enumerate(cases):
-        if c.helpers:
-            u.append(c.helpers.replace("@", str(i)))
-        body = (c.body or "FN(R_%s) = %s;" % (TN[c.rt], text(c.tree))).replace("@", str(i))
+        if c.fold:
+            helpers, body, n_ctx = fold_unit(c, i)
+            nfold[c.fold] = nfold.get(c.fold, 0) + n_ctx
+            u.append(helpers)
+        else:
+            if c.helpers:
+                u.append(c.helpers.replace("@", str(i)))
+            body = (c.body or "FN(R_%s) = %s;" % (TN[c.rt], text(c.tree))).replace("@", str(i))
         u.append("void FN(f%d)(void) { %s }" % (i, body))
         if c.typed:
             tys.append("_Generic(%s, %s)" % (text(c.tree), GENERIC)); szs.append("sizeof(%s)" % text(c.tree))
@@ -669,7 +1060,7 @@ def build_batch(cases, consts=()):
             for s in range(3):
                 d.append("extern %s %sS%d_%s;" % (TYPES[t], pfx, s, TN[t]))
             d.append("extern %s %sR_%s;" % (TYPES[t], pfx, TN[t]))
-        d.append("extern int %stypes[], %ssizes[], %sktypes[], %sksizes[];" % (pfx, pfx, pfx, pfx))
+        d.append("extern int %stypes[], %ssizes[], %sktypes[], %sksizes[], %sIX[3];" % (pfx, pfx, pfx, pfx, pfx))
         for i in range(len(cases)):
             d.append("void %sf%d(void);" % (pfx, i))
         for i, (cid, sp, t, want) in enumerate(consts):
@@ -699,10 +1090,7 @@ def build_batch(cases, consts=()):
     for i, c in enumerate(cases):
         root = emit_model(c.tree, nodes)
         gi = []
-        for t in c.slots:
-            kind = c.grid
-            if kind == "cond":
-                kind = "small"
+        for t, kind in zip(c.slots, c.grids()):
             key = (t, kind)
             if key not in grids:
                 grids[key] = len(grids)
@@ -734,6 +1122,7 @@ def build_batch(cases, consts=()):
     d.append("static const KRow krows[] = {%s};" % ",\n".join(kr + ["{0}"]))
     d.append("#define NKROWS %d" % len(consts))
     d.append(DRIVER_MAIN)
+    build_batch.nfold = nfold
     return unit, "\n".join(d) + "\n"
 
 
@@ -745,7 +1134,29 @@ def _run_batch(args):
     chibicc, wd, bidx, cases, consts = args
     c = _C(); c.chibicc = chibicc
     unit, drv = build_batch(cases, consts)
-    res = twin.twin_run(c, wd, "b%d" % bidx, unit, drv, run_timeout=900)
+    # folded cases: gcc refuses 0.0/0.0 and 1.0/0.0 in integer constant expressions unless it may assume that they do not trap
+    res = twin.twin_run(c, wd, "b%d" % bidx, unit, drv, run_timeout=900, ref_flags=REF_FOLD if any(x.fold for x in cases) else (),
+                        extra_units=["-latomic"])
+    res["nfold"] = dict(build_batch.nfold)
+    if res["status"] == "ok" and cases and (res["code"] != 0 or not re.search(r"^S evals=", res["stdout"], re.M)):
+        # The driver did not reach its end: code under test damaged the process outside the guarded call (stack, x87 or
+        # SSE state used by the driver's own code, an endless loop).  Every case again, each in a process of its own.
+        exe = os.path.join(wd, "b%d.exe" % bidx)
+        lines, died, tot = [], [], [0] * 6
+        for i in range(len(cases)):
+            st, out, err = core.run_limited([exe, str(i)], cwd=wd, timeout=600)
+            m = re.search(r"^S evals=(\d+) skipped=(\d+) odis=(\d+) j2=(\d+) j1=(\d+) kj=(\d+)", out, re.M)
+            if st == "timeout":
+                res["single_timeout"] = cases[i].cid
+                return bidx, res
+            if st != 0 or not m:
+                died.append((i, st)); continue
+            lines += [l for l in out.splitlines() if not l.startswith("S ")]
+            tot = [a + int(b) for a, b in zip(tot, m.groups())]
+        res["whole_batch_code"] = res["code"]
+        res["died"] = died
+        res["code"] = 0
+        res["stdout"] = "\n".join(lines + ["S evals=%d skipped=%d odis=%d j2=%d j1=%d kj=%d" % tuple(tot)]) + "\n"
     return bidx, res
 
 
@@ -776,18 +1187,30 @@ def _bisect_ccfail(chibicc, wd, cases, consts):
     return bad
 
 
+REF_FOLD = ["-fno-trapping-math"]
 REPLAY = ("# rebuilds the single case and compares chibicc against gcc -O0 and the model on the whole operand grid\n"
           "$CHIBICC -DPFX=cc_ -c -o cc.o unit.c || exit 1\n"
-          "gcc -O0 -fwrapv -fno-builtin -fno-pie -fcommon -std=gnu11 -w -DPFX=ref_ -c -o ref.o unit.c || exit 0\n"
-          "gcc -O1 -w -std=gnu11 -fno-pie -no-pie -o drv driver.c cc.o ref.o -Wl,-z,noexecstack -lm || exit 0\n"
-          "./drv > out.txt; grep -qF -- \"$(cat expect.txt)\" out.txt && exit 1\nexit 0")
+          "gcc -O0 -fwrapv -fno-builtin -fno-pie -fcommon -std=gnu11 -w $(cat refflags.txt) -DPFX=ref_ -c -o ref.o unit.c || exit 0\n"
+          "gcc -O1 -w -std=gnu11 -fno-pie -no-pie -o drv driver.c cc.o ref.o -Wl,-z,noexecstack -latomic -lm || exit 0\n"
+          "./drv > out.txt; rc=$?\n"
+          "if [ \"$(cat expect.txt)\" = DRIVER-DIES ]; then [ $rc -ne 0 ] && exit 1; exit 0; fi\n"
+          "grep -qF -- \"$(cat expect.txt)\" out.txt && exit 1\nexit 0")
 MODEL_H = os.path.join(core.VERIF, "harness/c02_model.h")
 
 
 def replay_files(cases, consts, expect):
     u1, d1 = build_batch(cases, consts)
     return {"unit.c": twin.PRELUDE + u1, "driver.c": d1.replace('"%s"' % MODEL_H, '"c02_model.h"'), "c02_model.h": open(MODEL_H).read(),
-            "expect.txt": expect}
+            "expect.txt": expect, "refflags.txt": " ".join(REF_FOLD) if any(c.fold for c in cases) else ""}
+
+
+def case_fn(c):
+    """One-line description of what the case function computes."""
+    if c.fold:
+        return "constant expression %s (a, b, c = operands spelled as constants; evaluated by the compiler: %s)" % (
+            c.fexpr.format("a", "b", "c"), {"static": "element of a static initializer", "condinit": "condition of ?: in a static initializer",
+                                            "bound": "array bound", "enum": "enumerator value", "case": "case label"}[c.fold])
+    return c.body or "FN(R_%s) = %s;" % (TN[c.rt], text(c.tree))
 
 
 MAX_ARTEFACTS = 80
@@ -821,9 +1244,11 @@ def flush_reports(ctx):
 
 
 def sig_class(cid):
-    """Construct class used in signatures.  Layers A, B: the case id (construct, operator, type pair).  Layer C
+    """Construct class used in signatures.  Layers A, B, D, E, L: the case id (construct, operator, type pair).  Layer C
     (compositions; the root cause is a primitive of layers A/B): shape and operators, operand types dropped."""
     p = cid.split("/")
+    if p[0] == "D" and p[-1] == "alt-spelling":       # layer D: the spelling of NaN/infinity operands is not part of the class
+        return "/".join(p[:-1])
     if p[0] != "C":
         return cid
     return "/".join(p[:-1])
@@ -862,12 +1287,19 @@ def run(ctx):
         dup = sorted(set(x for x in ids if ids.count(x) > 1))[:5]
         raise core.HarnessError("generator produced duplicate case ids: %s" % dup)
     per = 700
+    folded = sorted((c for c in cases if c.fold), key=lambda c: -c.ntuples())
+    plain = [c for c in cases if not c.fold]
     # expensive rows first so that the shards are balanced
-    nb = max(1, (len(cases) + per - 1) // per)
+    nb = max(1, (len(plain) + per - 1) // per)
     if nb > core.NPROC:
         nb = (nb + core.NPROC - 1) // core.NPROC * core.NPROC
+    # folded cases: one constant expression per operand tuple; about 25 000 expressions per unit
+    fold_tuples = sum(c.ntuples() for c in folded)
+    nf = max(1, (fold_tuples + 24999) // 25000)
+    nf = (nf + core.NPROC - 1) // core.NPROC * core.NPROC
     # round-robin so that the expensive rows (large grids) are spread over the shards
-    batches = [(cases[i::nb], []) for i in range(nb)] + [([], k) for k in core.chunks(consts, 600)]
+    # (the short folded and constant batches first: a deadline on an overloaded machine then cuts off no whole layer)
+    batches = [(folded[i::nf], []) for i in range(nf) if folded[i::nf]] + [([], k) for k in core.chunks(consts, 600)] + [(plain[i::nb], []) for i in range(nb)]
     if ctx.seed:
         batches = batches[ctx.seed % len(batches):] + batches[:ctx.seed % len(batches)]
     args = [(ctx.chibicc, os.path.join(ctx.work, "b%d" % i), i, b, k) for i, (b, k) in enumerate(batches)]
@@ -876,11 +1308,21 @@ def run(ctx):
     done = 0
     conv_cover = {}
     outcomes = set()
-    for grp in core.chunks(args, core.NPROC):
-        if ctx.out_of_time(reserve=60):
-            ctx.incomplete("deadline: %d of %d batches finished" % (done, len(batches)))
-            break
-        for bidx, res in core.pmap(_run_batch, grp):
+    nfold = {}
+    # one pool for all batches (no barrier between groups of them); results are handled in batch order afterwards
+    results = {}
+    with ProcessPoolExecutor(max_workers=min(core.NPROC, len(args))) as ex:
+        futs = [ex.submit(_run_batch, a) for a in args]
+        for fu in as_completed(futs):
+            bidx, res = fu.result()
+            results[bidx] = res
+            if ctx.out_of_time(reserve=60) and len(results) < len(futs):
+                for f2 in futs:
+                    f2.cancel()
+                ctx.incomplete("deadline: %d of %d batches finished" % (len(results), len(batches)))
+                break
+    for _ in (0,):
+        for bidx, res in sorted(results.items()):
             done += 1
             bc, bk = batches[bidx]
             if res["status"] == "harness":
@@ -891,12 +1333,24 @@ def run(ctx):
                     ctx.violation("C02|rejected|%s|%s:%s" % (cid, stage, st), "valid program rejected/crashed: %s -> %s" % (cid, first),
                                   files={"unit.c": src}, replay="$CHIBICC -DPFX=cc_ -c -o cc.o unit.c && exit 0; exit 1")
                 continue
+            if res.get("single_timeout"):
+                raise core.HarnessError("driver of batch %d ended with %s and case %s alone ran into the timeout" % (bidx, res["code"], res["single_timeout"]))
             if res["code"] != 0:
                 raise core.HarnessError("driver crashed in batch %d: code=%s %s" % (bidx, res["code"], res["stderr"][-500:]))
+            if "died" in res:
+                if not res["died"]:
+                    raise core.HarnessError("driver of batch %d ended with %s, but every case of it runs to its end alone" % (bidx, res["whole_batch_code"]))
+                for i, st in res["died"]:
+                    c = bc[i]
+                    report(ctx, "C02|value|%s|process-damaged" % sig_class(c.cid),
+                           "%s { %s }: the test process does not survive this case (ends with %s outside the call of the function: "
+                           "the function damaged state of its caller)" % (c.cid, case_fn(c), st), lambda c=c: replay_files([c], [], "DRIVER-DIES"))
             out = res["stdout"]
             m = re.search(r"^S evals=(\d+) skipped=(\d+) odis=(\d+) j2=(\d+) j1=(\d+) kj=(\d+)", out, re.M)
             if not m:
                 raise core.HarnessError("no summary from driver batch %d" % bidx)
+            for k, v in res.get("nfold", {}).items():
+                nfold[k] = nfold.get(k, 0) + v
             e_, s_, o_, a_, b_, k_ = (int(x) for x in m.groups())
             evals += e_; skipped += s_; odis += o_; j2 += a_; j1 += b_; kj += k_
             for line in out.splitlines():
@@ -921,7 +1375,7 @@ def run(ctx):
                     i = int(f[1]); c = bc[i]
                     key, cnt, ex = f[2], f[3], f[4]
                     outcomes.add(key)
-                    fn = (c.body or "FN(R_%s) = %s;" % (TN[c.rt], text(c.tree)))
+                    fn = case_fn(c)
                     report(ctx, "C02|value|%s|%s" % (sig_class(c.cid), key), "%s { %s }: %s (%s failing operand tuples in this class)" % (c.cid, fn, ex, cnt),
                            lambda c=c, key=key: replay_files([c], [], "V 0 %s " % key))
                 elif line.startswith("KT ") or line.startswith("KV "):
@@ -957,20 +1411,38 @@ def run(ctx):
               rule="one case = one (construct, operator, operand-type tuple) function evaluated on the full class-boundary grid of its operand "
                    "types, or one floating constant spelling observed as static object and run-time value; non-trivial = at least one operand "
                    "tuple had a defined result on which the soft-float model and gcc -O0 agreed (constants: rational model and gcc agreed)",
+              translation_time_expressions=sum(nfold.values()), translation_time_by_context=json.dumps(nfold, sort_keys=True),
+              cases_by_layer=json.dumps({k: sum(1 for c in cases if c.cid.startswith(k + "/")) for k in "ABCDEL"}, sort_keys=True),
+              layers_round3="D: the operators, conversions and compositions of A-C with constant operands (NaN as 0.0/0.0 and inf-inf, infinity as 1.0/0.0 "
+                            "and MAX*2, -0 as -0.0 and 0.0*-1.0, finite values as exact hexadecimal constants, integers as casts of constants) that the "
+                            "compiler must evaluate itself: static array initializer element (all), and for 0/1-valued expressions and floating->integer "
+                            "casts also ?: condition in an initializer, file-scope array bound, enumerator, case label; grids small^2 / full / tiny^3. "
+                            "E: integer->floating conversion of unstored intermediate values of the 9 integer types ((S)wider, (S)floating, -x, ~x, "
+                            "x op y for + - * / & | ^, call result, ?:, comma, assignment value, (S)constant) x 3 floating types x consumers (cast, init, "
+                            "+ - < <= with the expression on either side; thorough also argument, return, op=, > >=). L: 12 evaluations of a discarded "
+                            "floating expression (12 forms) in 11 statement/expression positions x 3 types before an observed product; + - * / and six "
+                            "comparisons repeated 12 times; x87 tag word and top compared around every case function. B2: ++ -- op= on _Atomic "
+                            "(float, double, _Bool), pointer-dereference, member and element lvalues",
               layers="A: 12 binary ops (+ - * / < <= > >= == != && ||) x 63 type pairs with a floating operand, unary - ! + x 3, 144 casts "
                      "(plain and widened), ?: and comma x 63; B: init/assign/assign-global/assignment-value/argument/return x 144 pairs, variadic "
                      "promotion, 4 op= x 63 (global and local), ++/-- x 3 (global and local), 11 truth contexts x 3, if(a cmp b) x 54; "
                      "C: (a o1 b) o2 c, unary-of-binary, binary-of-negation, cast-of-binary over rank representatives; "
                      "K: decimal and hexadecimal constants x suffixes {none,f,F,l,L} at rounding boundaries of the three formats")
-    for c in (cases[0], cases[len(cases) // 3], cases[-1]):
-        ctx.sample({"case": c.cid, "function": (c.body or "FN(R_%s) = %s;" % (TN[c.rt], text(c.tree))),
-                    "grid_sizes": [len(grid_values(t, "small" if c.grid == "cond" else c.grid)) for t in c.slots]})
+    for c in (cases[0], cases[len(cases) // 3], [x for x in cases if x.cid.startswith("E/")][7], [x for x in cases if x.cid.startswith("L/")][3], cases[-1]):
+        ctx.sample({"case": c.cid, "function": case_fn(c),
+                    "grid_sizes": [len(grid_values(t, g)) for t, g in zip(c.slots, c.grids())]})
     ctx.sample({"constant": consts[len(consts) // 2][0], "spelling": consts[len(consts) // 2][1][:80]})
     if ctx.exhaustive:
         if judged_cases < len(cases) * 0.95:
             raise core.HarnessError("vacuous: only %d of %d cases had judged tuples" % (judged_cases, len(cases)))
         if kj < len(consts):
             raise core.HarnessError("vacuous: only %d of %d constants judged" % (kj, len(consts)))
+        miss = [k for k in FOLD_CONTEXTS if nfold.get(k, 0) < 1000]
+        if miss:
+            raise core.HarnessError("vacuous: fewer than 1000 constant expressions written in the contexts %s" % miss)
+        for l in "ABCDEL":
+            if not any(c.cid.startswith(l + "/") for c in cases):
+                raise core.HarnessError("vacuous: layer %s was not generated" % l)
         if j2 < 10 * j1:
             raise core.HarnessError("vacuous: the model covered too few tuples (%d modelled, %d gcc-only)" % (j2, j1))
     ctx.assume("IEC 60559 (Annex F) semantics as on the reference platform: round-to-nearest-even for int->fp, fp->fp and arithmetic; x/0, overflow to "
